@@ -156,7 +156,88 @@ def run_b1(prop_id, plugin, n_defs, cap_vals, seed, corpus=None):
     if bad_thm and not bad_spec:
         tie["broken"].append("harness: model and spec differ on %d observations although they are proved equal (driver bug or ill-formed input)" % len(bad_thm))
         tie["broken_details"] += [{"observation": o, "model": m, "spec": s} for o, m, s in bad_thm[:3]]
+    config_tie(tie, plugin, defs)
     return tie
+
+
+CFG_KIND = {"PartialEq": "cmp", "Hash": "cmp", "Ord": "cmp", "PartialOrd": "cmp", "Debug": "debug", "Clone": "clone", "Deref": "deref", "DerefMut": "deref"}
+
+
+def config_tie(tie, plugin, defs):
+    """B5: the attribute-layer model (Expand.lean), fed with syn's records of the same definitions, must read every
+    field's configuration (ignore / method / rank / rename / designated field) as the generator intended it -
+    the configuration the behavioural model was just validated on."""
+    from . import attr
+    cases = [(td.id, td.render(bare=True)) for td in defs]
+    try:
+        real = attr.expand_real(cases)
+        model = attr.expand_model(real)
+    except (common.BuildError, RuntimeError) as e:
+        tie["broken"].append("B5: " + str(e)[:300])
+        return
+    checked = 0
+    for td in defs:
+        r, m = real.get(td.id), model.get(td.id)
+        if not r or r["outcome"] != "ok":
+            continue            # the behavioural part already reported what the compiler said
+        if not m or m[0] != "ok":
+            tie["broken"].append("B5: the attribute-layer model does not accept a definition the implementation accepts: %s" % (m[0] if m else "no result"))
+            tie["broken_details"].append({"rust_source": cases[[c[0] for c in cases].index(td.id)][1]})
+            continue
+        items = {it["trait"]: it for it in m[1]}
+        for t, kind in CFG_KIND.items():
+            it = items.get(t)
+            if it is None or not any(t in f.req for v in td.variants for f in v.fields):
+                continue
+            diffs = []
+            if kind == "deref":
+                if td.kind == "union":
+                    continue
+                for k, v in enumerate(td.variants):
+                    flagged = [j for j, f in enumerate(v.fields) if f.req.get(t, {}).get("flag")]
+                    want = flagged[0] if flagged else (0 if len(v.fields) == 1 else None)
+                    got = it["head"][0] if td.kind == "struct" else (it["variants"][k]["cfg"][0] if k < len(it["variants"]) else None)
+                    if want is not None and str(want) != got:
+                        diffs.append("variant %d: designated field %s, model %s" % (k, want, got))
+            else:
+                if not it["variants"] or len(it["variants"]) != len(td.variants):
+                    continue    # companion item (PartialOrd next to Ord) or union form: no per-field configuration
+                for k, v in enumerate(td.variants):
+                    mf = it["variants"][k]["fields"]
+                    if len(mf) != len(v.fields):
+                        diffs.append("variant %d: %d fields, model %d" % (k, len(v.fields), len(mf)))
+                        continue
+                    for j, f in enumerate(v.fields):
+                        req = f.req.get(t)
+                        if req is None:
+                            continue
+                        row = mf[j]
+                        if kind == "clone":
+                            got = {"method": row[1] != "none"}
+                            want = {"method": req.get("method") is not None}
+                        else:
+                            got = {"ignore": row[1] == "true", "method": row[2] != "none"}
+                            want = {"ignore": bool(req.get("ignore")), "method": req.get("method") is not None}
+                            if kind == "cmp" and "rank" in req:
+                                got["rank"] = None if row[3] == "none" else int(row[3])
+                                want["rank"] = req.get("rank")
+                            if kind == "debug":
+                                got["rename"] = None if row[3] == "none" else row[3][5:]
+                                want["rename"] = req.get("rename") or None
+                            if want["ignore"]:
+                                got = {"ignore": got["ignore"]}      # nothing else matters for an ignored field
+                                want = {"ignore": True}
+                        if got != want:
+                            diffs.append("variant %d field %d (%s): generator %s, model %s" % (k, j, t, want, got))
+            checked += 1
+            if diffs:
+                tie["broken"].append("B5: the attribute-layer model reads the attributes differently from what the generator wrote: " + diffs[0])
+                tie["broken_details"].append({"rust_source": td.render(bare=True), "trait": t, "differences": diffs[:5]})
+    tie["extra"]["attribute_model_configs_compared"] = checked
+    tie["rule"] = tie.get("rule", "") + ("; B5: the same definitions are expanded in-process and syn's records fed to the attribute-layer model "
+                                        "(Expand.lean): per trait its per-field configuration (ignore / method / rank / rename / designated "
+                                        "field) must equal what the generator wrote")
+    tie["broken"] = tie["broken"][:4]
 
 
 def histogram(defs):
